@@ -39,7 +39,7 @@ K_MODEL = "model-to-schema-first-use-class-dict-mutated-while-iterated"
 # sizes: (variants, single-preemption points per direction (None = all),
 #         double-preemption grid side, random schedules per (variant, n, p))
 SIZES = {
-    "quick": dict(variants=2, single=90, double=6, random=22),
+    "quick": dict(variants=2, single=70, double=6, random=18),
     "thorough": dict(variants=4, single=None, double=22, random=210),
 }
 PROBS = (0.005, 0.02, 0.10)
